@@ -263,6 +263,76 @@ pub fn run_case(case: &Value, out: &mut Obs) {
             undo_type_changes(&mut a);
         }
     }
+    // The session services on their error paths (connection 1): a CreateSession on a secured channel whose client certificate
+    // is rejected, an ActivateSession that is refused.
+    {
+        use opcua::crypto::{SecurityPolicy, X509Data, X509};
+        let c = &mut conns[0];
+        let sc = {
+            let t = c.t.clone();
+            let t = t.read();
+            t.verif_secure_channel()
+        };
+        let set_policy = |p: SecurityPolicy, m: MessageSecurityMode| {
+            let mut s = sc.write();
+            s.set_security_policy(p);
+            s.set_security_mode(m);
+        };
+        let create = |h: RequestHeader, cert: ByteString| -> SupportedMessage {
+            CreateSessionRequest {
+                request_header: h,
+                client_description: ApplicationDescription::default(),
+                server_uri: UAString::null(),
+                endpoint_url: UAString::from(ENDPOINT),
+                session_name: UAString::from("verif2"),
+                client_nonce: ByteString::from(vec![7u8; 32]),
+                client_certificate: cert,
+                requested_session_timeout: 0.0,
+                max_response_message_size: 0,
+            }
+            .into()
+        };
+        set_policy(SecurityPolicy::Basic256Sha256, MessageSecurityMode::SignAndEncrypt);
+        let h = c.header();
+        let req = create(h, ByteString::from(vec![1u8, 2, 3, 4]));
+        task(out, &cid, &mut i, "CreateSession~certificate_is_not_a_certificate", 1, || {
+            let _ = c.call(req);
+        });
+        let foreign = X509::cert_and_pkey(&X509Data {
+            key_size: 2048,
+            common_name: "stranger".to_string(),
+            organization: "x.org".to_string(),
+            organizational_unit: "x.org ops".to_string(),
+            country: "EN".to_string(),
+            state: "London".to_string(),
+            alt_host_names: vec!["urn:stranger".to_string(), "strangerhost".to_string()],
+            certificate_duration_days: 60,
+        })
+        .map(|(cert, _)| cert.as_byte_string())
+        .unwrap_or_else(|_| ByteString::null());
+        let h = c.header();
+        let req = create(h, foreign);
+        task(out, &cid, &mut i, "CreateSession~certificate_of_a_stranger", 1, || {
+            let _ = c.call(req);
+        });
+        set_policy(SecurityPolicy::None, MessageSecurityMode::None);
+        let h = c.header();
+        let req: SupportedMessage = ActivateSessionRequest {
+            request_header: h,
+            client_signature: SignatureData::null(),
+            client_software_certificates: None,
+            locale_ids: None,
+            user_identity_token: ExtensionObject::from_encodable(
+                ObjectId::UserNameIdentityToken_Encoding_DefaultBinary,
+                &UserNameIdentityToken { policy_id: UAString::from("userpass_none"), user_name: UAString::from("nobody"), password: ByteString::from(b"x".to_vec()), encryption_algorithm: UAString::null() },
+            ),
+            user_token_signature: SignatureData::null(),
+        }
+        .into();
+        task(out, &cid, &mut i, "ActivateSession~unknown_user", 1, || {
+            let _ = c.call(req);
+        });
+    }
     // closing a session and tearing a connection down come last (they free objects)
     {
         let c = &mut conns[0];
